@@ -104,6 +104,11 @@ class AH:
                 self.reg(s.op(A, 'fapply', 'not', a, None), T.neg(self.live[a], n), '~')
             else:
                 self.reg(s.op(A, 'fapply', o, a, c), gen.conn(o, self.live[a], self.live[c], full), o)
+        elif k < 0.425:
+            # a copy into the SAME manager (module-level `copy_bdd`): a second handle on
+            # the same node, with its own reference
+            a = rng.choice(hs)
+            self.reg(s.op(A, 'copy', int(A[1:]), a), self.live[a], 'copy into the same manager')
         elif k < 0.44:
             # formulas from a small pool, so that the SAME text is added again later,
             # after its first result was dropped and collected and its number re-used
